@@ -39,7 +39,7 @@ def main():
         cfgs = sys.argv[sys.argv.index("--cfgs") + 1]
     if "--also" in sys.argv:
         also = sys.argv[sys.argv.index("--also") + 1].split(",")
-    w = "/tmp/ev/cur"  # fixed path: the per-configuration build caches are keyed on it and stay incremental
+    w = os.environ.get("VERIF_EV_DIR", "/tmp/ev/cur")  # fixed path: the per-configuration build caches are keyed on it and stay incremental
     # Reuse the scratch worktree (and its cargo target dir) between evaluations; recreate it if /repo moved on.
     head = sh("git -C /repo rev-parse HEAD")[1].strip()
     if os.path.isdir(w + "/.git") or os.path.isfile(w + "/.git"):
